@@ -315,6 +315,14 @@ def c19(tier, seed, replay=None):
         cov[k] += cov2[k]
     cov["vjp_sessions_with_abandoned_calls"] = {k: cov2[k] for k in ("traces_validated_against_impl", "rule_application_events_validated", "graphs_exported_by_tlc", "rule")}
     v1.violations += v2.violations
+    # ... and on the rule tables: nothing a rule computes may be remembered across calls (TraceHistory.tla)
+    from checks import rules
+    hist = rules.c19_history(v1, tier, seed)
+    cov["states"] += hist["states"]
+    cov["transitions"] += hist["transitions"]
+    cov["traces_validated_against_impl"] += hist["configurations_run_in_both_orders"]
+    cov["evaluations"] += 2 * hist["configurations_run_in_both_orders"]
+    cov["rule_tables_in_two_orders"] = hist
     rc = v1.finish()
     vlib.write_evidence("C19", tier, seed, "model_checking", cov, ASSUME, time.time() - t0, len(v1.violations))
     return rc
